@@ -192,7 +192,30 @@ def register(M):
 
     def b_transpose(args, kw, st, node):
         a = M.as_arr(st, args[0])
-        return M.arr_attr(a, args[0], 'T', st)
+        if a.ndim != 2:
+            return args[0]
+        return st.alloc(TokArr(derived(st, TR(matrix_token(M, a, st))), (a.shape[1], a.shape[0])))
+
+    def b_identity(args, kw, st, node):
+        n = num(args[0])
+        axioms(st, ex)
+        return st.alloc(TokArr(EYE(Z(n)), (n, n)))
+    B['identity'] = b_identity
+
+    def b_diag_of(args, kw, st, node):
+        a = M.as_arr(st, args[0])
+        return st.alloc(TokArr(derived(st, DIAGV(matrix_token(M, a, st))), (a.shape[0], a.shape[0])))
+    B['diag_of'] = b_diag_of
+
+    def b_unitri_nonsingular(args, kw, st, node):
+        """L-UNITRI (cited): for the weight matrix W of a DAG, I - W^T is non-singular (unit triangular up to a permutation)"""
+        W = M.as_arr(st, args[0])
+        n = W.shape[0]
+        Mm = SArr((n, n), lambda i, j: to_real(z3.If(Z(i) == Z(j), z3.RealVal(1), z3.RealVal(0))) - to_real(Z(num(W.get(j, i)))), 'float')
+        acy = M.builtins['acyclic']([args[0]], {}, st, node)
+        ex.use('L-UNITRI:I - W^T is non-singular for the weight matrix W of a DAG (cited, not mechanised)')
+        return IMPLIES(acy, NONSING(matrix_token(M, Mm, st)))
+    B['unitri_nonsingular'] = b_unitri_nonsingular
     B['transpose'] = b_transpose
 
     def b_nonsingular(args, kw, st, node):
